@@ -9,6 +9,8 @@ use std::path::Path;
 
 // build script's entry point
 fn main() {
+    // verification hooks are guarded by `--cfg adf_obdd_verif`
+    println!("cargo:rustc-check-cfg=cfg(adf_obdd_verif)");
     gen_tests();
 }
 
